@@ -764,7 +764,9 @@ func TestVF_C14(t *testing.T) {
 			}
 		}
 	}
-	vfBubbles(t, len(fes), func(t *testing.T, i int) { vfC14FatalOnEstablished(t, res, fes[i].cfg, fes[i].victim, fes[i].dual, fes[i].migrate) })
+	vfBubbles(t, len(fes), func(t *testing.T, i int) {
+		vfC14FatalOnEstablished(t, res, fes[i].cfg, fes[i].victim, fes[i].dual, fes[i].migrate)
+	})
 	res.Floor("fatal_alerts_provoked_on_established_sessions", 6)
 	res.Floor("abbreviated_agreeing", 20)
 	res.Floor("fallback_full", 5)
